@@ -1,6 +1,6 @@
 (* C02 — Refinements (metahandlers) hold on every value the library produces.
    Only statements closed by [exact]; Print Assumptions; non-vacuity example. *)
-From GE Require Import Base Tape Grammar WellTyped Synth Sat SynthFrame SynthSat MhProofs KnownRefuted.
+From GE Require Import Base Tape Grammar WellTyped Synth Sat SynthFrame SynthSat MhProofs KnownRefuted Linear MapProofs.
 Open Scope Z_scope.
 
 (* every value create_node returns satisfies, at every refined position (top level, inside lists,
@@ -51,6 +51,15 @@ Print Assumptions C02_validate_sound.
 Theorem C02_dependent_validate_refuted : forall names fn v, mh_validate (MDependent names fn) v = Err NotImplementedError.
 Proof. exact dependent_validate_refuted. Qed.
 Print Assumptions C02_dependent_validate_refuted.
+
+(* after mapping: whatever the genotype, a program the GE / structured GE / dynamic structured GE mapping returns satisfies
+   every refinement *)
+Theorem C02_mapped_programs_refined : forall d order g, extract d order = Ok g -> decl_ok d = true ->
+  (forall fuel k dna v st, ge_map fuel g k dna = (Ok v, st) -> Sat (g_decl g) (g_reg g) [] (start_ty g) v) /\
+  (forall fuel k infra v st, sge_map fuel g k infra = (Ok v, st) -> Sat (g_decl g) (g_reg g) [] (start_ty g) v) /\
+  (forall fuel D s dna v st, dsge_map fuel g D s dna = (Ok v, st) -> Sat (g_decl g) (g_reg g) [] (start_ty g) v).
+Proof. exact mappings_sat. Qed.
+Print Assumptions C02_mapped_programs_refined.
 
 (* ---- non-vacuity: a production whose third field depends on the first two, a sized list of refined ints ---- *)
 Definition ex2 : decl :=
